@@ -278,6 +278,12 @@ func (sc *c06eScenario) Check(w *simWorld, last *simEvent) {
 				key = fmt.Sprintf("C06:effect:decoder-returns-before-nlri-field:nlri-error-unseen:%s:%s", strings.TrimPrefix(kind, "class:"), mode)
 			case strings.HasPrefix(v.Attr, "MP_") && strings.HasPrefix(v.Rule, "mp-") && mpFlagsErr:
 				key = fmt.Sprintf("C06:effect:mp-attr-flags-error-hides-value-errors:%s:%s", strings.TrimPrefix(kind, "class:"), mode)
+			case kind == "class:got=taw" && v.Primary == c06lib.Reset && sc.cs.Revised:
+				// diagnosis: the decoder asked for treat-as-withdraw, so the validation stage (which would
+				// have asked for a reset) was not run
+				if _, dTAW, _, vReset := c06eDiagnose2(sc.raw, pt); dTAW && vReset {
+					key = "C06:effect:strongest-wins:validation-skipped-after-decoder-taw:want=reset:got=taw"
+				}
 			}
 		}
 		w.violate(key, format+" — "+what, a...)
@@ -338,7 +344,7 @@ func (sc *c06eScenario) Check(w *simWorld, last *simEvent) {
 			} else {
 				viol("class:got=reset", "the session was reset (state %v, NOTIFICATIONs %v)", p.State(), notifs)
 			}
-			break
+			return
 		}
 		if len(notifs) != 1 {
 			viol("reset-notification-count", "session reset but %d NOTIFICATIONs reached the peer", len(notifs))
@@ -491,6 +497,11 @@ func (sc *c06eScenario) Check(w *simWorld, last *simEvent) {
 // violation key only, never part of the oracle): did the decoder reject an attribute, and what does the
 // validation stage say about the message it left behind?
 func c06eDiagnose(raw []byte, pt c06lib.PeerType) (decodeErr bool, validateMsg string, validateReset bool) {
+	decodeErr, _, validateMsg, validateReset = c06eDiagnose2(raw, pt)
+	return
+}
+
+func c06eDiagnose2(raw []byte, pt c06lib.PeerType) (decodeErr, decodeTAW bool, validateMsg string, validateReset bool) {
 	defer func() {
 		if r := recover(); r != nil {
 			validateMsg, validateReset = "panic", true
@@ -506,6 +517,9 @@ func c06eDiagnose(raw []byte, pt c06lib.PeerType) (decodeErr bool, validateMsg s
 		return
 	}
 	decodeErr = err != nil
+	if me, isme := err.(*bgp.MessageError); isme {
+		decodeTAW = me.ErrorHandling == bgp.ERROR_HANDLING_TREAT_AS_WITHDRAW
+	}
 	if ok, ve := bgp.ValidateUpdateMsg(m.Body.(*bgp.BGPUpdate), rf, pt != c06lib.IBGP, pt == c06lib.Confed, false); !ok {
 		if me, isme := ve.(*bgp.MessageError); isme {
 			validateMsg, validateReset = me.Message, me.ErrorHandling >= bgp.ERROR_HANDLING_AFISAFI_DISABLE
@@ -642,19 +656,20 @@ func TestVerif_C06_Effect(t *testing.T) {
 		jobs = append(jobs, simJob{ID: i, Scenario: "c06", Arg: string(arg), Hist: []simEvent{{Op: "fault"}}})
 	}
 	pool := &simPool{n: workers}
+	var crashed []simJob
 	pool.runAll(jobs, func(o simOutcome) {
 		r.Eval()
 		rp := simReplay{"c06", o.job.Arg, o.job.Hist}
 		c := cases[o.job.ID]
 		if o.crash != "" {
-			r.Violationf("C06:effect:daemon-crash:"+simCrashSite(o.crash), rp, "the daemon process died on %s; stderr tail:\n%s", c, simTail(o.crash, 3000))
+			crashed = append(crashed, o.job)
 			return
 		}
 		if o.res.Panic != "" {
 			if strings.Contains(o.res.Panic, "c06 setup:") || strings.Contains(o.res.Panic, "c06:") {
 				t.Fatalf("ENGINE-ERROR %s: %s", c, simTail(o.res.Panic, 1500))
 			}
-			r.Violationf("C06:effect:panic:"+simCrashSite(o.res.Panic), rp, "panic on %s: %s", c, simTail(o.res.Panic, 3000))
+			r.Violationf("panic:c06:"+simCrashSite(o.res.Panic), rp, "panic on %s: %s", c, simTail(o.res.Panic, 3000))
 			return
 		}
 		r.NT(o.job.Arg)
@@ -674,5 +689,65 @@ func TestVerif_C06_Effect(t *testing.T) {
 			t.Fatalf("ENGINE-ERROR vacuous: outcome %q never seen: %v", k, r.Outcomes)
 		}
 	}
+	// a case on which the worker process died: reproduce it 3x in fresh workers and name the crash site
+	// from the complete stderr (the pool only keeps a tail, which loses the head of a long trace)
+	sort.Slice(crashed, func(i, j int) bool { return crashed[i].ID < crashed[j].ID })
+	for _, job := range crashed {
+		c := cases[job.ID]
+		site, trace, n := "", "", 0
+		for i := 0; i < 3; i++ {
+			if s, tr, died := c06eCrashOnce(job); died {
+				n++
+				if site == "" || s == site {
+					site, trace = s, tr
+				} else {
+					site = "varying-site"
+				}
+			}
+		}
+		if n == 3 {
+			r.Violationf("C06:effect:daemon-crash:"+site, c06eCrashReplay{"c06", job.Arg, job.Hist}, "the daemon process died (3/3) on %s:\n%s", c, simTail(trace, 2500))
+			r.Outcomes["daemon crashed"]++
+		} else {
+			r.Extra["unstable_crash:"+job.Arg] = fmt.Sprintf("the worker died in the sweep but only %d/3 times when re-run", n)
+			r.Cap("a worker death did not reproduce 3/3 and is not reported as a violation")
+		}
+	}
 	simConfirm(t, r, 3)
+}
+
+// c06eCrashReplay has the JSON shape of simReplay (so that --replay works) but is a different Go type, so
+// that simConfirm leaves the already confirmed crash violations alone.
+type c06eCrashReplay struct {
+	Scenario string     `json:"scenario"`
+	Arg      string     `json:"arg"`
+	Hist     []simEvent `json:"hist"`
+}
+
+// c06eCrashOnce runs one job in a fresh worker process; when the process dies it returns the crash site
+// taken from the complete stderr and the head of the trace.
+func c06eCrashOnce(job simJob) (site, trace string, died bool) {
+	p, err := simStartWorker()
+	if err != nil {
+		return "", "", false
+	}
+	_, err = p.run(job)
+	if err == nil {
+		p.kill()
+		return "", "", false
+	}
+	p.jobs.Close()
+	p.cmd.Wait()
+	full := p.stderr.String()
+	p.kill()
+	if i := strings.Index(full, "panic:"); i >= 0 {
+		full = full[i:]
+	} else if i := strings.Index(full, "fatal error:"); i >= 0 {
+		full = full[i:]
+	}
+	head := full
+	if len(head) > 2500 {
+		head = head[:2500]
+	}
+	return simCrashSite(full), head, true
 }
